@@ -63,6 +63,17 @@ def handle (j : Json) : Json :=
     jarr ((st.reads (nats j "reads")).map fun l => jarr (l.map jnat))
   | "stack" =>
     jbool (entryReplayable ("", strs j "decorators", bool j "one_shot"))
+  | "dictkeys" =>
+    -- `_completions_for_dicts` with the sorts where they stand in the source
+    let cfg : DictCfg := { globalSort := JediModel.Gen.C16.dictKeysGlobalSort,
+                           perDictSort := JediModel.Gen.C16.dictKeysPerDictSort }
+    let dicts : List DictVal := (arr j "dicts").map fun d =>
+      { isDict := bool d "dict",
+        keys := (arr d "keys").map fun k => match k with
+          | .str s => some (codes s)
+          | _ => none }
+    let out := completionsForDicts cfg (codes (str j "literal")) (codes (str j "cut")) dicts
+    jarr (out.map fun s => jstr (String.ofList (s.map Char.ofNat)))
   | op => jobj [("error", jstr ("unknown op " ++ op))]
 
 def main : IO Unit := Proto.run handle
